@@ -107,11 +107,19 @@ def mon_c08(run, world):
     offers = []
     decs = []
     i = 0
+    last_offers = []          # the LAST query of the frontier inside the same handler: the one the policy itself made
+    in_ss = False
     for e in log:
         if e[0] == "handle" and e[2] == "SCHEDULER_START":
             offers.append(None)
+            last_offers.append(None)
+            in_ss = True
+        elif e[0] == "handled":
+            in_ss = False
         elif e[0] == "offer" and offers and offers[-1] is None:
             offers[-1] = e
+        elif e[0] == "offer" and in_ss and last_offers:
+            last_offers[-1] = e
         elif e[0] == "decisions":
             decs.append(e)
     ss_rows = [r for r in rows if len(r) > 1 and r[1] == "SCHEDULER_START"]
@@ -119,6 +127,15 @@ def mon_c08(run, world):
     for r, o in zip(ss_rows, offers):
         if o is not None and int(r[2]) != len(o[6]):
             bad.append("SCHEDULER_START row at %s reports %s schedulable tasks, %d were offered" % (r[0], r[2], len(o[6])))
+    # (graphs with conditionals are not judged by this clause: with a lookahead the frontier contains a branch PREDICTED by
+    #  a random draw per query, so two queries at the same instant legitimately differ)
+    has_cond = any(t.get("conditional") for e in log if e[0] == "graph" for t in e[1]["tasks"])
+    for r, o in zip(ss_rows, [] if has_cond else last_offers):
+        # the row must report what the POLICY was offered (its own query of the frontier, same instant), not only what the
+        # simulator's logging query returned
+        if o is not None and int(r[2]) != len(o[6]):
+            bad.append("SCHEDULER_START row at %s reports %s schedulable tasks, the policy was offered %d (its query: lookahead %s "
+                       "preemption %s retract %s release_taskgraphs %s)" % (r[0], r[2], len(o[6]), o[2], o[3], o[4], o[5]))
     for r, d in zip(sf_rows, decs):
         placed = sum(1 for x in d[2] if x[0] == "PLACE_TASK" and x[3] is not None)
         unplaced = sum(1 for x in d[2] if x[0] == "PLACE_TASK" and x[3] is None)
